@@ -29,7 +29,7 @@ def _wval(x, t):
   if k in ("V", "Q", "M"):
     return f"(VV {vlib.flist(np.asarray(x, dtype=np.float64).reshape(-1))})"
   if k == "VI":
-    return f"(VV {vlib.flist(np.asarray(x, dtype=np.float64).reshape(-1))})"
+    return f"(VZs {vlib.zlist(np.asarray(x).reshape(-1))})"
   raise NotImplementedError(str(t))
 
 
@@ -71,11 +71,9 @@ def _static_fun(arr, elt, ndim):
 
 
 def _heap_fun(buf, elt, ndim):
-  g = {"S": "hgetS", "Z": "hgetZ", "B": "hgetB"}.get(elt[0], "hgetV")
+  g = {"S": "hgetS", "Z": "hgetZ", "B": "hgetB", "VI": "hgetZs"}.get(elt[0], "hgetV")
   vars_ = [f"i{j}" for j in range(ndim)]
   body = f'{g} h "{buf}"%string [{"; ".join(vars_)}]'
-  if elt[0] == "VI":
-    body = f"(map f_trunc ({body}))"
   return "(fun " + " ".join(vars_) + " => " + body + ")"
 
 
@@ -122,22 +120,31 @@ def run_cases(res, tag, gen_import, cases, tol=2e-4, written_hint=None):
     bind = dict(c.get("bind", {}))
     args = c["args"]
     written = set(c.get("written", ())) or set(written_hint or ())
-    # real launch
-    bufs = {}
-    wargs = []
-    for p, t in params:
-      v = args[p]
-      if t[0] == "A":
-        b = bind.get(p, p)
-        if b not in bufs:
-          bufs[b] = wp.array(np.ascontiguousarray(v), dtype=_wp_dtype(t[1]))
-        wargs.append(bufs[b])
-      else:
-        wargs.append(v)
-    init = {b: bufs[b].numpy().copy() for b in bufs}
-    wp.launch(c["kernel"], dim=c["dim"], inputs=wargs)
-    wp.synchronize()
-    final = {b: bufs[b].numpy().copy() for b in bufs}
+    if "after" in c:
+      # traced real launch (bin/ktrace.py): buffers before are in args, after in c["after"]
+      init = {}
+      for p, t in params:
+        if t[0] == "A" and bind.get(p, p) == p:
+          init[p] = np.asarray(args[p])
+      final = {b: np.asarray(c["after"][b]) for b in init}
+      bufs = init
+    else:
+      # real launch
+      bufs = {}
+      wargs = []
+      for p, t in params:
+        v = args[p]
+        if t[0] == "A":
+          b = bind.get(p, p)
+          if b not in bufs:
+            bufs[b] = wp.array(np.ascontiguousarray(v), dtype=_wp_dtype(t[1]))
+          wargs.append(bufs[b])
+        else:
+          wargs.append(v)
+      init = {b: bufs[b].numpy().copy() for b in bufs}
+      wp.launch(c["kernel"], dim=c["dim"], inputs=wargs)
+      wp.synchronize()
+      final = {b: bufs[b].numpy().copy() for b in bufs}
     changed = {b for b in bufs if not np.array_equal(init[b], final[b], equal_nan=True)}
     tracked = changed | {bind.get(p, p) for p in written}
     # Coq term
@@ -154,9 +161,15 @@ def run_cases(res, tag, gen_import, cases, tol=2e-4, written_hint=None):
     dims = c["dim"] if isinstance(c["dim"], (tuple, list)) else (c["dim"],)
     dims = tuple(dims) + (1,) * (nt - len(dims))
     tasks = []
-    for tid in itertools.product(*[range(int(n)) for n in dims[:nt]]):
+    grid = list(itertools.product(*[range(int(n)) for n in dims[:nt]]))
+    order = c.get("order", "asc")
+    if order == "rev":
+      grid = grid[::-1]
+    elif order.startswith("perm:"):
+      grid = [grid[i] for i in np.random.default_rng(int(order[5:])).permutation(len(grid))]
+    for tid in grid:
       tids = " ".join(f"({i})%Z" for i in tid)
-      tasks.append(f"(fun h orc => @{fi.coqname} float Sc {tids} {' '.join(call_args)} orc {' '.join(shapes)})")
+      tasks.append(f"(fun h orc => ({fi.coqname} {tids} {' '.join(call_args)} orc {' '.join(shapes)} : list (write float)))")
     ptypes = dict(params)
     belt = {}
     for p, t in params:
